@@ -60,6 +60,7 @@ func c37(r *core.Run) {
 		})
 	}
 	r.Floor("C37.X1", "peer-controlled SSA values found", ntv, 100)
+	c37ErrNilDeref(r, t, funcs)
 
 	type finding struct {
 		fn   *ssa.Function
